@@ -318,6 +318,9 @@ func exec(c proto.Case, o *proto.Out) []string {
 					eps = append(eps, e)
 				}
 			}
+			// the authentication plugin caches credentials per (method, normalised URL) for its whole life, even
+			// across policy reloads: every tree gets a fresh plugin so that an answer depends on this tree only
+			st.authInit = false
 			if w[0] == "load" {
 				st.glob = st.declaredGlob
 				outs[i] = st.load(eps, o)
